@@ -54,7 +54,7 @@ func TestUnsupported(t *testing.T) {
 	cases := map[string]string{
 		"go statement":    "package lib\nfunc F() { go func() {}() }\n",
 		"range over chan": "package lib\nfunc F(c chan int) { for range c {} }\n",
-		"select":          "package lib\nfunc F(c chan int) { select { case <-c: default: } }\n",
+		"blocking select": "package lib\nfunc F(c chan int) { select { case <-c: } }\n",
 		"time.Sleep":      "package lib\nimport \"time\"\nfunc F() { time.Sleep(1) }\n",
 		"sync.WaitGroup":  "package lib\nimport \"sync\"\nvar wg sync.WaitGroup\nfunc F() { wg.Wait() }\n",
 		"sync.Cond":       "package lib\nimport \"sync\"\nvar c = sync.NewCond(&sync.Mutex{})\nfunc F() { c.Wait() }\n",
